@@ -11,7 +11,7 @@ from . import terms as T
 from .terms import Ref, Int, Bool, Str
 from .contracts import Schema
 
-Z3_TIMEOUT_MS = int(os.environ.get("PYVC_Z3_TIMEOUT_MS", "40000"))
+Z3_TIMEOUT_MS = int(os.environ.get("PYVC_Z3_TIMEOUT_MS", "120000"))
 CVC5_TIMEOUT_MS = int(os.environ.get("PYVC_CVC5_TIMEOUT_MS", "20000"))
 MAX_UNIVERSE = 60
 
@@ -302,16 +302,19 @@ def run_cvc5(smt2: str, timeout_ms: int):
         os.unlink(path)
 
 
-def discharge(ob, class_axioms, base_facts, want_model=True) -> Result:
+def discharge(ob, class_axioms, base_facts, want_model=True, timeout_ms=None, quick=False) -> Result:
+    """quick: one z3 attempt only (used for the conjunction of a group of obligations: on failure each member is tried alone)"""
     t0 = time.time()
     if ob.expect == "unsat" and z3.is_true(ob.goal):
         return Result(ob.oid, "proved", "syntactic", 0.0)
     fs, ninst = build_query(ob, class_axioms, base_facts)
     s = z3.Solver()
-    s.set("timeout", Z3_TIMEOUT_MS if ob.expect != "sat" else min(Z3_TIMEOUT_MS, 6000))
+    s.set("timeout", (timeout_ms or Z3_TIMEOUT_MS) if ob.expect != "sat" else min(Z3_TIMEOUT_MS, 6000))
     s.add(*fs)
     r = s.check()
     backend = f"z3-{z3.get_version_string()}"
+    if quick and r != z3.unsat:
+        return Result(ob.oid, "unknown", backend, time.time() - t0, ninst, reason="group attempt")
     if r == z3.unknown and ob.expect != "sat":
         smt2 = s.to_smt2().replace("(check-sat)", "")
         cv = run_cvc5(smt2, CVC5_TIMEOUT_MS)
